@@ -169,6 +169,12 @@ def ob_effect_predicate(r, tier, seed, depth):
 
 # ----------------------------------------------------------------------------- O9.3 ANF names effects in source order, exactly once, respecting short-circuit and branches
 from mirsym.engine import UNIT as UNIT_
+GEN_USED = set()       # forms the generator actually produced during the current obligation (checked against the requested forms: a form that is listed in the bounds but never generated makes the obligation inconclusive)
+def check_generated(r, forms):
+    missing = sorted(f for f in forms if f not in GEN_USED)
+    r.bounds += '; forms generated on at least one path: %s' % sorted(GEN_USED)
+    if missing: raise Unsupported('the generator never produced the requested forms %s: the stated bounds would overstate the exploration' % missing)
+
 class LiftGen:
     """lazily chosen Lift-IR expressions; alongside each expression the *source* effect trace is built:
     trace = list of events; event = ('call', f) | ('if', then_trace, else_trace) | ('while', cond_trace, body_trace)"""
@@ -187,11 +193,12 @@ class LiftGen:
         s.n += 1; me = s.n
         opts = ['bvar', 'bcall'] + (['and', 'or', 'not', 'less'] if depth > 0 else [])
         opts = [o for o in opts if o in s.forms or o in ('bvar', 'bcall')]
-        k = s.ex.choose([(True, o) for o in opts])
+        k = s.ex.choose([(True, o) for o in opts]); GEN_USED.add(k)
         if k == 'bvar': return s.var('b%d' % me, 'TBool'), []
         if k == 'bcall':
             if 'reads' in s.forms or 'read1' in s.forms:
                 nm = s.ex.choose([(True, 'p%d' % me)] + [(True, x) for x in (READS if 'reads' in s.forms else READS[:1])])
+                if nm in READS: GEN_USED.update(('reads', 'read1'))
                 if nm in READS: return s.call(nm, [s.var('c%d' % me), s.var('i%d' % me)], 'TBool'), [('call', 'read')]
             return s.call('p%d' % me, [], 'TBool'), [('call', 'p%d' % me)]
         if k == 'not':
@@ -217,7 +224,7 @@ class LiftGen:
         """int-typed expression + trace"""
         s.n += 1; me = s.n
         opts = ['var', 'call0'] + ([f for f in ('call1', 'call2', 'callcall', 'add', 'div', 'sub', 'mul', 'if', 'let', 'tuple', 'while', 'whilematch', 'unitop') if f in s.forms] if depth > 0 else [])
-        k = s.ex.choose([(True, o) for o in opts])
+        k = s.ex.choose([(True, o) for o in opts]); GEN_USED.add(k)
         if k == 'var': return s.var('v%d' % me), []
         if k == 'call0': return s.call('g%d' % me, []), [('call', 'g%d' % me)]
         if k == 'call1':
@@ -341,7 +348,7 @@ def ob_anf_order(r, tier, seed, depth, forms, top):
         return None
     W.overrides = [ov]
     for n in list(W.methods.get('from_lift_env', [])): W.stubs[n[1]] = lambda ex, a: Opaque('anfenv')
-    res = e2.explore(r, W, entry, [])
+    GEN_USED.clear(); res = e2.explore(r, W, entry, []); check_generated(r, forms)
     found = {}
     for p in res:
         r.cases += 1
@@ -654,7 +661,7 @@ def ob_go_lowering(r, tier, seed, depth, forms, top):
         gf = dict(zip([x[0] for x in GFN.variants[0].fields], gfn.fields))
         gg = GoGen(W, ex)
         return norm_trace(src), norm_trace(go_trace(W, gg, gf['body'].fields[0].items))
-    res = e2.explore(r, W, entry, [])
+    GEN_USED.clear(); res = e2.explore(r, W, entry, []); check_generated(r, forms)
     found = {}
     for p in res:
         r.cases += 1
@@ -668,7 +675,7 @@ def ob_go_lowering(r, tier, seed, depth, forms, top):
 def obligations():
     obs = [Ob('O9.1-effect-predicate-d1', 'DCE effect predicate is sound, depth 1', ob_effect_predicate, ('quick', 'thorough'), 2, dict(depth=1)),
            Ob('O9.1-effect-predicate-d2', 'DCE effect predicate is sound, depth 2', ob_effect_predicate, ('quick', 'thorough'), 10, dict(depth=2))]
-    obs += [Ob('O9.3-anf-order-call-d1', 'ANF keeps the source effect trace: f(A1, A2), depth 1', ob_anf_order, ('quick', 'thorough'), 3, dict(depth=1, forms=['call1', 'call2', 'callcall', 'add', 'if', 'let', 'tuple', 'while', 'whilematch', 'unitop', 'and', 'or', 'not', 'less'], top='call')),
+    obs += [Ob('O9.3-anf-order-call-d1', 'ANF keeps the source effect trace: f(A1, A2), depth 1', ob_anf_order, ('quick', 'thorough'), 3, dict(depth=1, forms=['call1', 'call2', 'callcall', 'add', 'if', 'let', 'tuple', 'while', 'whilematch', 'unitop'], top='call')),
             Ob('O9.3-anf-order-bool-d1', 'ANF keeps short-circuit evaluation of && / ||', ob_anf_order, ('quick', 'thorough'), 3, dict(depth=1, forms=['and', 'or', 'not', 'less', 'call1', 'reads'], top='bool')),
             Ob('O9.3-anf-order-call-d2', 'ANF keeps the source effect trace: f(A1, A2), depth 2', ob_anf_order, ('thorough',), 100, dict(depth=2, forms=['call1', 'callcall', 'add', 'if', 'let', 'and', 'or'], top='call'))]
     obs += [Ob('O9.2-block-dce-2', 'block-level DCE preserves effects and the returned value: 2 statements + return', ob_block_dce, ('quick', 'thorough'), 3, dict(nstmts=2, depth=0)),
@@ -681,7 +688,7 @@ def obligations():
             Ob('O9.4-go-lowering-arith-d1', 'Go lowering keeps the operand order of + - * /', ob_go_lowering, ('quick', 'thorough'), 5, dict(depth=1, forms=['call1', 'add', 'div', 'sub', 'mul'], top='call'))]
     obs += [Ob('O9.3-anf-order-go', 'ANF keeps a `go` in tail / let / if position', ob_anf_order, ('quick', 'thorough'), 1, dict(depth=0, forms=[], top='go')),
             Ob('O9.4-go-lowering-go', 'Go lowering emits the go statement for a `go` in tail / let / if position', ob_go_lowering, ('quick', 'thorough'), 1, dict(depth=0, forms=[], top='go'))]
-    obs += [Ob('O9.4-go-lowering-call-d1', 'Go lowering keeps the effect trace: f(A1, A2), depth 1 (incl. while / if / let)', ob_go_lowering, ('quick', 'thorough'), 10, dict(depth=1, forms=['call1', 'add', 'if', 'let', 'while', 'whilematch', 'unitop', 'and', 'or', 'not', 'less'], top='call')),
+    obs += [Ob('O9.4-go-lowering-call-d1', 'Go lowering keeps the effect trace: f(A1, A2), depth 1 (incl. while / if / let)', ob_go_lowering, ('quick', 'thorough'), 10, dict(depth=1, forms=['call1', 'add', 'if', 'let', 'while', 'whilematch', 'unitop'], top='call')),
             Ob('O9.4-go-lowering-bool-d1', 'Go lowering keeps short-circuit branches', ob_go_lowering, ('quick', 'thorough'), 5, dict(depth=1, forms=['and', 'or', 'not', 'less', 'read1'], top='bool'))]
     return obs
 
